@@ -252,7 +252,8 @@ end
 mutual
 /-- well-formed: a float literal obeys the number grammar and is not a plain integer (those are `.int`) -/
 def wf : GoVal → Bool
-  | .num l => validNumber l && (readIntLit l).isNone && l.all isNumChar
+  | .num l => validNumber l && (readIntLit l).isNone && l.all isNumChar &&
+      (match l with | c :: _ => isNumStart c | [] => false)
   | .arr l => wfList l
   | .map kvs => wfMems kvs
   | .struct kvs => wfMems kvs
@@ -318,9 +319,11 @@ def allLines : List Result → List (List Char) → Bool
   | r :: rs, l :: ls => holdsLine r l && allLines rs ls
   | _, _ => false
 
-/-- elements whose key did not occur earlier in the list, in order -/
-def firstOccurrences {α κ : Type} [DecidableEq κ] (id : α → κ) (l : List α) : List α :=
-  (l.zipIdx.filter (fun (r, i) => (l.take i).all (fun q => id q ≠ id r))).map (·.1)
+/-- elements whose key did not occur earlier in the list, in order: keep the head, drop every later
+    element with the head's key, go on -/
+def firstOccurrences {α κ : Type} [DecidableEq κ] (id : α → κ) : List α → List α
+  | [] => []
+  | r :: t => r :: (firstOccurrences id t).filter (fun q => id q ≠ id r)
 
 /-- observed output `obs` of logging `rs` (with or without de-duplication): exactly one faithful line
     per expected result, in order, nothing else.  Identity of a host = `Result.ID()` (the property's
